@@ -54,7 +54,8 @@ MANIFEST = dict(
               "+ comparison normalisation + loop-carried dependence test",
 )
 FLOORS = {"C05.1": 3, "C05.2": 4, "C05.3": 4, "C05.4": 3, "C05.5": 1,
-          "C05.6": 2, "C05.7": 1, "C05.8": 1, "C05.9": 1, "C05.10": 10}
+          "C05.6": 2, "C05.7": 1, "C05.8": 1, "C05.9": 1, "C05.10": 10,
+          "C05.11": 8}
 
 MTI = "evo.core.sync.matching_time_indices"
 ASSOC = "evo.core.sync.associate_trajectories"
@@ -492,6 +493,15 @@ def _reduce_together(ctx):
                      "subclass" in o.key or o.key.endswith(":selection")
                      or o.key.endswith(":unconditional"))
     ctx.require(n >= 10, "C05.10: reduce_to_ids instances not found")
+    # the command-line tools hand the user's tolerance and offset to the
+    # association as given: `--t_max_diff 0` (identical stamps only) and an
+    # offset of 0 are values, not "unset" (instances of the run() wiring of
+    # evo_ape / evo_rpe, C01.5 / C02.7)
+    n = import_rules(ctx, "c01", ("C01.5",), "C05.11",
+                     pred=lambda o: ":run:associate:" in o.key)
+    n += import_rules(ctx, "c02", ("C02.7",), "C05.11",
+                      pred=lambda o: ":run:associate:" in o.key)
+    ctx.require(n >= 8, "C05.11: association wiring instances not found")
 
 
 def _iter_source(el: T):
